@@ -149,6 +149,16 @@ pub fn build_adf(spec: &AdfSpec, how: Build) -> Result<Adf, String> {
     })
 }
 
+/// The biodivine object for the same text (what a bridged `Adf` is instantiated from).
+pub fn build_bio(spec: &AdfSpec) -> Result<adf_bdd::adfbiodivine::Adf, String> {
+    let text = spec.text();
+    let parser = AdfParser::default();
+    parser
+        .parse()(&text)
+        .map_err(|e| format!("generated text rejected by the parser: {e}"))?;
+    Ok(adf_bdd::adfbiodivine::Adf::from_parser(&parser))
+}
+
 #[allow(dead_code)]
 pub fn var(i: usize) -> Var {
     Var(i)
